@@ -1784,13 +1784,13 @@ class ContentFile(File):
     classes = ContentFileClasses()
 
     def _calc_hash(self) -> str:
-        if self.filesystem.exists(self.path):
+        if self.filesystem.isfile(self.path):
             # Use filesystem.open() to avoid triggering a recursive hash update.
             with self.filesystem.open(self.path, mode="rb") as infile:
                 content_hash = hash_stream(infile)
         else:
-            # A missing file hashes deterministically (like the other File classes), so that
-            # validity checks of a deleted file report invalid instead of raising.
+            # A missing file (or a path that is no longer a file) hashes deterministically, like
+            # the other File classes, so that validity checks report invalid instead of raising.
             content_hash = ""
         return hash_struct([self.type_basename, self.path, content_hash])
 
